@@ -32,6 +32,8 @@ fn members() -> Vec<(&'static str, Class)> {
         ("\"?a\"", Class::Str),
         ("\"?b\"", Class::Str),
         ("\"i?c\"", Class::Str),
+        ("\"?a.*\"", Class::Str),
+        ("\"?.*a\"", Class::Str),
         ("1", Class::Num),
         ("2", Class::Num),
         ("\">1\"", Class::Num),
